@@ -67,6 +67,9 @@ type SessWorld struct {
 	Max   *spb.Uint128
 	Prim  *SS
 	Trace []string
+	// StrictNoElectionID: an operation that carries no election id must end the RPC
+	// (C09's statement); otherwise an in-band FAILED is accepted as well (C04's).
+	StrictNoElectionID bool
 	// LastCascade accumulates the number of held operations released (evidence).
 	LastCascade int
 	n           int
@@ -443,7 +446,7 @@ func (w *SessWorld) ClassifyOp(s *SS, id *spb.Uint128) (OpVerdict, Expect, bool,
 		}
 		return OpEndsRPC, e, false, "operation on a session that has not negotiated SINGLE_PRIMARY"
 	case id == nil:
-		return OpEndsRPC, Expect{AnyNonOK: true}, true, "operation without election id"
+		return OpEndsRPC, Expect{AnyNonOK: true}, !w.StrictNoElectionID, "operation without election id"
 	case s.Last == nil || w.Max == nil:
 		return OpEndsRPC, Expect{AnyNonOK: true}, true, "operation before the session announced an id"
 	case Big128(id).Cmp(Big128(w.Max)) > 0:
